@@ -6,10 +6,11 @@
 # Writes /verif/seeded/<ID>/{patch.diff,demo/,meta.json} when everything is confirmed.
 set -u
 ID="$1"; TIER="${2:-quick}"
-WT="/tmp/seed-$ID"; OUT="/tmp/seed-$ID-out"; LOG="/tmp/verify-$ID.log"
+P="${SEED_PREFIX:-seed}"; SFX="${SEED_SUFFIX:-}"
+WT="/tmp/$P-$ID"; OUT="/tmp/$P-$ID-out"; LOG="/tmp/verify-$ID$SFX.log"; DEST="/verif/seeded/$ID$SFX"
 : > "$LOG"
 cd "$WT" || { echo "no worktree"; exit 2; }
-unset RUSTFLAGS; export CARGO_NET_OFFLINE=true; export CARGO_TARGET_DIR=/tmp/seedverify-target
+unset RUSTFLAGS; export CARGO_NET_OFFLINE=true; export CARGO_TARGET_DIR="$WT/target"
 # start clean (demo files are in $OUT/demo); never use git stash here: stashes are shared by all worktrees
 git checkout -q . ; git clean -fdq -e target
 # locate where the demo goes (README says; default: first *.rs into searchlite-core/tests)
@@ -28,21 +29,22 @@ PASSED=$(grep -E "^test result:" "$LOG" | awk '{s+=$4} END{print s}')
 FAILED=$(grep -E "^test result:" "$LOG" | awk '{s+=$6} END{print s}')
 mv /tmp/seeded_demo_$ID.rs "$WT/$CRATE/tests/seeded_demo.rs"
 echo "== our check on the patch" >>"$LOG"
-VERIF_THREADS=6 env -u CARGO_TARGET_DIR /verif/tools/mutant_run.sh "$OUT/patch.diff" "$ID" "$TIER" >"/tmp/verify-$ID-check.log" 2>&1; CHECK=$?
+VERIF_THREADS=6 env -u CARGO_TARGET_DIR /verif/tools/mutant_run.sh "$OUT/patch.diff" "$ID" "$TIER" >"/tmp/verify-$ID$SFX-check.log" 2>&1; CHECK=$?
 echo "$ID: demo_clean_exit=$CLEAN demo_patched_exit=$PATCHED suite_exit=$SUITE (sum passed=$PASSED failed=$FAILED incl. demo runs) check_exit=$CHECK"
 if [ $CLEAN -eq 0 ] && [ $PATCHED -ne 0 ] && [ $SUITE -eq 0 ]; then
-  mkdir -p "/verif/seeded/$ID/demo"
-  cp "$OUT/patch.diff" "/verif/seeded/$ID/patch.diff"; cp -r "$OUT"/demo/* "/verif/seeded/$ID/demo/"
-  python3 - "$ID" "$CHECK" "$TIER" <<'E'
+  mkdir -p "$DEST/demo"
+  cp "$OUT/patch.diff" "$DEST/patch.diff"; cp -r "$OUT"/demo/* "$DEST/demo/"
+  python3 - "$ID" "$CHECK" "$TIER" "$OUT" "$DEST" "/tmp/verify-$ID$SFX-check.log" <<'E'
 import json,sys
 i,check,tier=sys.argv[1],int(sys.argv[2]),sys.argv[3]
-m=json.load(open(f'/tmp/seed-{i}-out/meta.json'))
-tail=open(f'/tmp/verify-{i}-check.log').read().splitlines()[-6:]
+out,dest,clog=sys.argv[4:7]
+m=json.load(open(f'{out}/meta.json'))
+tail=open(clog).read().splitlines()[-6:]
 m['verified_by_coordinator']={'demo_on_clean_tree':'passes','demo_with_patch':'fails','repo_suite_with_patch':'passes (cargo test --workspace --offline --no-fail-fast, demo moved aside)',
   'our_check':f'./check {i} {tier} via tools/mutant_run.sh', 'our_check_exit':check, 'detected': check==1, 'check_output_tail':tail}
-json.dump(m,open(f'/verif/seeded/{i}/meta.json','w'),indent=1)
+json.dump(m,open(f'{dest}/meta.json','w'),indent=1)
 E
-  echo "$ID: recorded in /verif/seeded/$ID (detected=$([ $CHECK -eq 1 ] && echo yes || echo NO))"
+  echo "$ID: recorded in $DEST (detected=$([ $CHECK -eq 1 ] && echo yes || echo NO))"
 else
   echo "$ID: NOT confirmed as a valid seeded change (see $LOG)"
 fi
